@@ -212,6 +212,32 @@ MixExpectWord(w) == FoldSet(LAMBDA bits, acc : Add(acc, ExpectWord(w, BranchVec(
 BranchesOK == fin => /\ FoldSet(LAMBDA bits, acc : Add(acc, Norm2(BranchVec(bits), Dim(N))), RZero, Outcomes) = ROne
                      /\ \E bits \in Outcomes : BranchVec(bits) = psi
 
+\* ---- histories of in-place updates (one operator object / one circuit object, several evaluations) ------
+\* The sequence of operators after each AddTerm IS the history of the operator object: H_1, H_2, ..., H_tmax.
+PrefixOp(k)  == OpFromTerms(SubSeq(terms, 1, k))
+OpTermsSeq(H) == LET ws == SetToSeq(DOMAIN H) IN [j \in 1..Len(ws) |-> [w |-> ws[j], c |-> H[ws[j]]]]
+OpValue(H, v) == [terms |-> OpTermsSeq(H), num |-> Exp(H, v, N), varnum |-> VarNum(H, v, N)]
+\* the operator object scaled in place
+ScaleHalf == Dyadic(-1, 1)
+\* the circuit object with one rotation angle updated in place: recorded gate list with gate `pos` at angle k2,
+\* replayed from the initial state along the recorded measurement outcomes
+RECURSIVE RunRec(_, _, _)
+RunRec(v, gs, j) ==
+  IF j > Len(gs) THEN v
+  ELSE IF gs[j].name = "MEASURE" THEN RunRec(Project(v, gs[j].t[1], gs[j].k, N), gs, j + 1)
+  ELSE RunRec(ApplyGate(v, gs[j], N), gs, j + 1)
+RotPositions == {j \in 1..Len(hist) : hist[j].name \in {"RX", "RY", "CRZ"}}
+AltPos  == IF RotPositions = {} THEN 0 ELSE CHOOSE j \in RotPositions : \A i \in RotPositions : j <= i
+AltK    == hist[AltPos].k + 2 * QK                 \* angle + pi (stays an even grid index)
+AltHist == [j \in 1..Len(hist) |-> IF j = AltPos THEN G(hist[j].name, hist[j].t, hist[j].c, AltK) ELSE hist[j]]
+AltVec  == RunRec(S0(src), AltHist, 1)
+
+HistoryOK == fin => /\ RunRec(S0(src), hist, 1) = psi                     \* replaying the record reproduces the state
+                    /\ \A k \in 0..Len(terms) : Exp(PrefixOp(k), psi, N) = SumTerms(terms, k)
+                    /\ Exp(OpScale(ScaleHalf, H0), psi, N) = Mul(ScaleHalf, Exp(H0, psi, N))
+                    /\ VarNum(OpScale(RI, H0), psi, N) = VarNum(H0, psi, N)
+                    /\ (AltPos # 0 => WellFormed(AltHist[AltPos], N))
+
 BehaviourRecord ==
      LET ws == OpSeq IN
      PrintT(<<"BH", ToJson([n |-> N, src |-> src, gates |-> hist, nmeas |-> nmeas, psi |-> psi, p |-> P,
@@ -221,6 +247,12 @@ BehaviourRecord ==
                             mixnum |-> IF nmeas = 0 THEN Exp(H0, psi, N)
                                        ELSE FoldSet(LAMBDA w, acc : Add(acc, Mul(H0[w], MixExpectWord(w))), RZero, DOMAIN H0),
                             raw |-> terms,
+                            prefixes |-> [k \in 1..Len(terms) |-> OpValue(PrefixOp(k), psi)],
+                            half |-> OpValue(OpScale(ScaleHalf, H0), psi),
+                            imag |-> OpValue(OpScale(RI, H0), psi),
+                            alt |-> IF AltPos = 0 THEN [pos |-> 0]
+                                    ELSE [pos |-> AltPos, k |-> AltK, p |-> Norm2(AltVec, Dim(N)),
+                                          num |-> Exp(H0, AltVec, N), varnum |-> VarNum(H0, AltVec, N)],
                             num |-> Exp(H0, psi, N), varnum |-> VarNum(H0, psi, N)])>>)
 
 \* the behaviour is complete: exported exactly once, by the action that closes it (in -simulate mode TLC
